@@ -17,7 +17,7 @@ structure Inv (b : Book) : Prop where
   ids : ∀ (id : Nat) (e : Entry), b.orders[id]? = some e → e.order.id = id
   /-- a created, not yet placed order carries the price key of its own price and a positive volume -/
   newok : ∀ (id : Nat) (e : Entry), b.orders[id]? = some e → e.order.status = .new →
-            e.key.pk = priceKey e.order.side e.order.price ∧ 0 < e.order.vol
+            e.key.pk = priceKey e.order.side e.order.price ∧ 0 < e.order.vol ∧ e.order.price ≤ MAXP
   nofault : b.fault = false
 
 /-- The invariant while order `a` is being matched: `a` is in neither queue and its table entry
@@ -30,7 +30,7 @@ structure LoopInv (b : Book) (a : Nat) : Prop where
   out : ∀ sd k, (k, a) ∉ (b.side sd).orders
   ids : ∀ (id : Nat) (e : Entry), b.orders[id]? = some e → e.order.id = id
   newok : ∀ (id : Nat) (e : Entry), id ≠ a → b.orders[id]? = some e → e.order.status = .new →
-            e.key.pk = priceKey e.order.side e.order.price ∧ 0 < e.order.vol
+            e.key.pk = priceKey e.order.side e.order.price ∧ 0 < e.order.vol ∧ e.order.price ≤ MAXP
   alt : a < b.orders.length
   nofault : b.fault = false
 
@@ -181,7 +181,7 @@ theorem LoopInv.fillStep {b : Book} {a : Nat} (h : LoopInv b a) (sd : Side) (e :
     LoopInv (Book.fillStep sd b e id m).1 a := by
   obtain ⟨k, hmem⟩ := bestOrderIdx_mem hh
   have hopp := h.side sd.opp
-  obtain ⟨m0, hm0, hact, hside, hkey, hpk, hvol, hstamp⟩ := hopp.ent k id hmem
+  obtain ⟨m0, hm0, hact, hside, hkey, hpk, hvol, hstamp, _⟩ := hopp.ent k id hmem
   rw [hm] at hm0; injection hm0 with hm0; subst hm0
   have hida : id ≠ a := fun hc => h.out sd.opp k (hc ▸ hmem)
   have hidlt : id < b.orders.length := (List.getElem?_eq_some_iff.mp hm).1
